@@ -983,10 +983,22 @@ def walk_depth(w, repo):
                         want = sorted(p for p, dd in depth.items() if mn <= dd <= mx and not (fl == "-L" and p == "r/d/k"))
                         if got != want:
                             dev.append("find %s r -mindepth %d -maxdepth %d%s: evaluated %r, expected %r" % (fl, mn, mx, " -depth" if df else "", got, want))
+        # the starting point as a symbolic link to the directory (walkdir: follow_root_links)
+        os.symlink("r", os.path.join(d, "rl"))
+        for fl in ("-H", "-L"):
+            for mn, mx in ((0, 4), (1, 1), (1, 2), (2, 2)):
+                for df in (False, True):
+                    rc, out, err = run([find_bin(repo), fl, "rl", "-mindepth", str(mn), "-maxdepth", str(mx)] + (["-depth"] if df else []), cwd=d)
+                    got = out.decode().split("\n")[:-1]
+                    want = sorted("rl" + p[1:] for p, dd in depth.items() if mn <= dd <= mx and not (fl == "-L" and p == "r/d/k"))
+                    if sorted(got) != want:
+                        dev.append("find %s rl -mindepth %d -maxdepth %d%s: evaluated %r, expected %r" % (fl, mn, mx, " -depth" if df else "", sorted(got), want))
+                    elif df and mn == 0 and got and got[-1] != "rl":
+                        dev.append("find %s rl -depth: the starting point is evaluated at position %d of %d, not last" % (fl, got.index("rl") + 1, len(got)))
         os.chmod(os.path.join(d, "r", "x"), 0o755)
     if dev:
         return True, "; ".join(dev[:2]) + (" (+%d more)" % (len(dev) - 2) if len(dev) > 2 else "")
-    return None, "150 depth-range configurations behave like the reference natively"
+    return None, "the depth-range configurations behave like the reference natively"
 
 
 def operand_cli(w, repo):
